@@ -1,0 +1,353 @@
+//go:build verif
+
+// Contracts for the fvc verification-condition generator in /verif (comment-only file; it adds no code to
+// the package and is only seen with -tags verif).
+//
+// Property C16 - CSRF: unsafe requests pass only with a live issued token from an allowed origin.
+//   An unsafe request reaches the protected handler (c.Next) only if it presents, through the configured
+//   extractor and matching the CSRF cookie, a token that the server issued and that is unexpired, not
+//   consumed (single use) and not deleted, and - when an Origin header (on https otherwise a Referer) is
+//   present - comes from the same origin or a configured trusted origin. Safe methods always pass and leave
+//   a valid token cookie; if the token store fails the request is rejected.
+//
+// Where the statement lives:
+//   New$1 (the handler)        atcall clauses at c.Next / at the store calls, and the outcome postconditions
+//   originMatchesHost, refererMatchesHost, (subdomain).match      "same origin or trusted origin"
+//   getRawFromStorage / createOrExtendTokenInStorage / deleteTokenFromStorage and the two managers
+//                               the token store: a ghost set of live tokens per back end; tokens enter it
+//                               only through createOrExtendTokenInStorage (issued by KeyGenerator or live
+//                               already), leave it by expiry (observed at a lookup), single use or DeleteToken
+//   (*Handler).DeleteToken, the cookie helpers, the extractors, configDefault, normalizeOrigin, New
+//
+// Obligations that FAIL on the unchanged code for a genuine reason (replays in /verif/replay/known/c16_*):
+//   refererMatchesHost/post:nil-only-same-or-trusted-origin#2   wildcard entries are matched against the whole
+//                               referer URL (path included): "https://attacker.test/.example.com" passes "https://*.example.com"
+//   (*storageManager).delRaw/post:deleted, deleteTokenFromStorage/post:dead-afterwards (session back end)
+//                               a failed delete is ignored: the request passes and the single-use token stays live
+//   (*storageManager).setRaw/post:stored, createOrExtendTokenInStorage/post:live-afterwards (session back end)
+//                               a failed write is ignored: the client is handed a token that is not in the store
+//   New/safety:bounds:strslice#3   a wildcard entry with leading spaces is split at the index taken in the
+//                               untrimmed string (start-up panic, or a wrong prefix/suffix pair)
+// Callers are verified against the callee CONTRACTS, so these failures stay where the defect is.
+
+package csrf
+
+//@ props C16
+
+// ---------------------------------------------------------------------------------------------
+// Origin / Referer checks
+// ---------------------------------------------------------------------------------------------
+// A wildcard entry "scheme://*.suffix" is stored as prefix "scheme://" and suffix ".suffix": a string matches
+// when it starts with the prefix, ends with the suffix and is long enough for the two not to overlap.
+//@ fn sdMatch(p string, s string, o string) bool = len(o) >= len(p) + len(s) && o[:len(p)] == p && o[len(o)-len(s):] == s
+
+//@ func (subdomain).match
+//@   pure
+//@   ensures iff-prefix-suffix-no-overlap: result <==> sdMatch(s.prefix, s.suffix, o)
+
+//@ func compareStrings
+//@   pure
+//@   ensures iff-equal: result <==> a == b
+
+//@ func compareTokens
+//@   pure
+//@   ensures iff-equal: result <==> str(a) == str(b)
+
+// The header values as the code sees them (lower-cased); urlOK/urlScheme/urlHost: net/url's view of a string
+// (mw_C16.spec). Same origin: scheme and host of the URL equal c.Scheme() and c.Host(). The package's error
+// values are assumed to be the distinct plain errors.New values of their declarations.
+//@ macro originLc(c) = lower(reqHeader(c, "Origin", epoch))
+//@ macro refererLc(c) = lower(reqHeader(c, "Referer", epoch))
+//@ macro sameOrigin(c, u) = urlScheme(u) == reqScheme(c, epoch) && urlHost(u) == reqHost(c, epoch)
+//@ macro trustedExact(list, o) = exists(i, 0, len(list), list[i] == o)
+//@ macro trustedWild(subs, o) = exists(i, 0, len(subs), sdMatch(subs[i].prefix, subs[i].suffix, o))
+//@ macro sentinelErrors() = errOriginNotFound != nil && plainErr(errOriginNotFound) && ErrOriginInvalid != nil && plainErr(ErrOriginInvalid) && ErrOriginInvalid != errOriginNotFound && ErrOriginNoMatch != nil && plainErr(ErrOriginNoMatch) && ErrOriginNoMatch != errOriginNotFound
+
+//@ func originMatchesHost
+//@   pure
+//@   requires sentinel-errors: sentinelErrors()
+//@   loop 1
+//@     invariant not-listed-so-far: forall(k, 0, rangeindex + 1, trustedOrigins[k] != origin)
+//@   loop 2
+//@     invariant no-wildcard-so-far: forall(k, 0, rangeindex + 1, !sdMatch(trustedSubOrigins[k].prefix, trustedSubOrigins[k].suffix, origin))
+//@   ensures plain-sentinel-or-nil: result == nil || plainErr(result)
+//@   ensures absent-iff-not-found: result == errOriginNotFound <==> (originLc(c) == "" || originLc(c) == "null")
+//@   ensures nil-only-same-or-trusted: result == nil ==> originLc(c) != "" && originLc(c) != "null" && urlOK(originLc(c)) && (sameOrigin(c, originLc(c)) || trustedExact(trustedOrigins, originLc(c)) || trustedWild(trustedSubOrigins, originLc(c)))
+//@   ensures same-or-trusted-is-nil: originLc(c) != "" && originLc(c) != "null" && urlOK(originLc(c)) && (sameOrigin(c, originLc(c)) || trustedExact(trustedOrigins, originLc(c)) || trustedWild(trustedSubOrigins, originLc(c))) ==> result == nil
+
+// The Referer is a full URL: what has to be same-origin or trusted is its origin, scheme://host.
+// trustedWf: every exact entry is a serialised origin (established by New through normalizeOrigin).
+// nil-only-same-or-listed-or-string-wildcard describes what the code does (wildcards against the whole URL);
+// nil-only-same-or-trusted-origin is the property and FAILS (see the head of the file).
+//@ macro refOrigin(r) = urlScheme(r) + "://" + urlHost(r)
+//@ macro trustedWf(list) = forall(i, 0, len(list), originForm(list[i]))
+
+//@ func refererMatchesHost
+//@   pure
+//@   requires sentinel-errors: ErrRefererNotFound != nil && ErrRefererInvalid != nil && ErrRefererNoMatch != nil
+//@   requires trusted-are-origins: trustedWf(trustedOrigins)
+//@   loop 1
+//@     invariant not-listed-so-far: forall(k, 0, rangeindex + 1, trustedOrigins[k] != referer)
+//@   loop 2
+//@     invariant no-wildcard-so-far: forall(k, 0, rangeindex + 1, !sdMatch(trustedSubOrigins[k].prefix, trustedSubOrigins[k].suffix, referer))
+//@   ensures nil-needs-parsable-referer: result == nil ==> refererLc(c) != "" && urlOK(refererLc(c))
+//@   ensures same-origin-is-nil: refererLc(c) != "" && urlOK(refererLc(c)) && sameOrigin(c, refererLc(c)) ==> result == nil
+//@   ensures nil-only-same-or-trusted-origin: result == nil ==> sameOrigin(c, refererLc(c)) || trustedExact(trustedOrigins, refOrigin(refererLc(c))) || trustedWild(trustedSubOrigins, refOrigin(refererLc(c)))
+
+// ---------------------------------------------------------------------------------------------
+// Token store, storage back end. smLive(m, k): token k is in the store of manager m (issued, not
+// expired, not deleted). The ghost maps stHas (fiber.Storage) and memHas (internal/memory) are
+// updated only by the assumed Get/Set/Delete contracts; entries may vanish (expire) at a Get.
+// ---------------------------------------------------------------------------------------------
+//@ macro smLive(m, k) = ite(m.storage != nil, stHas[m.storage][k], memHas[m.memory][k])
+//@ macro onlyExpiry() = forallI(s, forallS(k, stHas[s][k] ==> old(stHas[s][k]))) && forallI(s, forallS(k, memHas[s][k] ==> old(memHas[s][k])))
+
+//@ func (*storageManager).getRaw
+//@   modifies stHas, memHas
+//@   ensures found-only-live: result != nil ==> smLive(m, key)
+//@   ensures lookup-adds-nothing: onlyExpiry()
+
+//@ func (*storageManager).setRaw
+//@   modifies stHas, stVal, memHas
+//@   atcall @fiber.Storage.Set: key-and-ttl-passed: arg1 == old(key) && arg3 == old(exp)
+//@   atcall @memory.(*Storage).Set: key-and-ttl-passed: arg1 == old(key) && arg3 == old(exp)
+//@   ensures others-kept: forallI(s, forallS(k, k != key ==> (stHas[s][k] <==> old(stHas[s][k])) && (memHas[s][k] <==> old(memHas[s][k]))))
+//@   ensures stored-in-memory: m.storage == nil ==> smLive(m, key)
+//@   ensures stored-or-store-untouched: smLive(m, key) || (stHas == old(stHas) && stVal == old(stVal))
+//@   ensures never-removes: old(smLive(m, key)) ==> smLive(m, key)
+// FAILS (genuine): the error of Storage.Set is discarded ("TODO: Do not ignore error"), nothing is stored then.
+//@   ensures stored: smLive(m, key)
+
+//@ func (*storageManager).delRaw
+//@   modifies stHas, memHas
+//@   atcall @fiber.Storage.Delete: key-passed: arg1 == old(key)
+//@   atcall @memory.(*Storage).Delete: key-passed: arg1 == old(key)
+//@   ensures others-kept: forallI(s, forallS(k, k != key ==> (stHas[s][k] <==> old(stHas[s][k])) && (memHas[s][k] <==> old(memHas[s][k]))))
+//@   ensures deleted-in-memory: m.storage == nil ==> !smLive(m, key)
+//@   ensures deleted-or-store-untouched: !smLive(m, key) || stHas == old(stHas)
+//@   ensures adds-nothing: forallI(s, forallS(k, (stHas[s][k] ==> old(stHas[s][k])) && (memHas[s][k] ==> old(memHas[s][k]))))
+// FAILS (genuine): the error of Storage.Delete is discarded, the token stays live then.
+//@   ensures deleted: !smLive(m, key)
+
+// ---------------------------------------------------------------------------------------------
+// The CSRF cookie
+// ---------------------------------------------------------------------------------------------
+//@ func setCSRFCookie
+//@   modifies rcSet, rcVal
+//@   ensures cookie-name-value: rcSet[cfg.CookieName] && rcVal[cfg.CookieName] == token
+//@   atcall @time.(Time).Add: expires-now-plus-expiry: t == last(@time.Now) && d == expiry
+//@   ensures other-cookies-kept: forallS(k, k != cfg.CookieName ==> (rcSet[k] <==> old(rcSet[k])) && rcVal[k] == old(rcVal[k]))
+
+//@ func updateCSRFCookie
+//@   modifies rcSet, rcVal
+//@   atcall setCSRFCookie: lives-as-long-as-token: expiry == cfg.IdleTimeout
+//@   ensures cookie-carries-token: rcSet[cfg.CookieName] && rcVal[cfg.CookieName] == token
+
+//@ func expireCSRFCookie
+//@   modifies rcSet, rcVal
+//@   atcall setCSRFCookie: already-expired: expiry < 0
+//@   ensures cookie-cleared: rcSet[cfg.CookieName] && rcVal[cfg.CookieName] == ""
+
+// ---------------------------------------------------------------------------------------------
+// Token store, session back end: the session of the client that sent request c holds at most one
+// CSRF token: ssHas[c] (present and unexpired), ssKey[c] (the token).
+// The session package's functions have no contracts visible here (their contracts belong to C15's
+// file and a function can have one contract only) and a struct stored in an `any` is opaque to the
+// engine, so the ghost-level meaning of the three methods is given by `defines` clauses (ASSUMED at call
+// sites, not checked); what the bodies decide on their own locals is checked (`ensures`, `atcall`).
+// ---------------------------------------------------------------------------------------------
+//@ ghost ssHas map[ref]bool
+//@ ghost ssKey map[ref]string
+
+//@ func (*sessionManager).getRaw
+//@   modifies ssHas, heap
+//@   atcall @session.(*Middleware).Get: reads-csrf-entry: typeis(key, sessionKeyType)
+//@   atcall @session.(*Session).Get: reads-csrf-entry: typeis(key, sessionKeyType)
+//@   atcall @time.(Time).Before: expiry-against-now: u == last(@time.Now)
+//@   atcall compareTokens: unexpired-and-same-token-before-raw-compare: ok && !last("@time.(Time).Before") && key == token.Key && a == raw && b == token.Raw
+//@   defines found-only-live: result != nil ==> ssHas[c] && ssKey[c] == key
+//@   defines lookup-adds-nothing: forallI(x, ssHas[x] ==> old(ssHas[x]))
+
+//@ func (*sessionManager).setRaw
+//@   modifies ssHas, ssKey, heap
+//@   atcall @time.(Time).Add: expires-now-plus-exp: t == last(@time.Now) && d == exp
+//@   atcall @session.(*Middleware).Set: writes-csrf-entry: typeis(key, sessionKeyType) && typeis(value, Token)
+//@   atcall @session.(*Session).Set: writes-csrf-entry: typeis(key, sessionKeyType) && typeis(val, Token)
+//@   atcall @session.(*Session).Save: saved-after-write: called("@session.(*Session).Set")
+//@   defines stored-unless-session-fault: (ssHas[c] && ssKey[c] == key) || (ssHas == old(ssHas) && ssKey == old(ssKey))
+//@   defines other-sessions-kept: forallI(x, x != c ==> ssHas[x] == old(ssHas[x]) && ssKey[x] == old(ssKey[x]))
+
+//@ func (*sessionManager).delRaw
+//@   modifies ssHas, heap
+//@   atcall @session.(*Middleware).Delete: deletes-csrf-entry: typeis(key, sessionKeyType)
+//@   atcall @session.(*Session).Delete: deletes-csrf-entry: typeis(key, sessionKeyType)
+//@   atcall @session.(*Session).Save: saved-after-delete: called("@session.(*Session).Delete")
+//@   defines deleted-unless-session-fault: !ssHas[c] || ssHas == old(ssHas)
+//@   defines other-sessions-kept: forallI(x, x != c ==> ssHas[x] == old(ssHas[x]))
+
+// ---------------------------------------------------------------------------------------------
+// Token store as the handler sees it (either back end). tokLive(c, k): token k is live for the client
+// of request c. The store objects are named by their entry-state (`old`) identity because the session
+// calls havoc the heap.
+// ---------------------------------------------------------------------------------------------
+//@ macro liveIn(cf, sm, c, k) = ite(old(cf.Session) != nil, ssHas[c] && ssKey[c] == k, ite(old(sm.storage) != nil, stHas[old(sm.storage)][k], memHas[old(sm.memory)][k]))
+//@ macro liveAtEntryIn(cf, sm, c, k) = ite(old(cf.Session) != nil, old(ssHas)[c] && old(ssKey)[c] == k, ite(old(sm.storage) != nil, old(stHas)[old(sm.storage)][k], old(memHas)[old(sm.memory)][k]))
+//@ macro tokLive(c, k) = liveIn(cfg, storageManager, c, k)
+//@ macro tokLiveAtEntry(c, k) = liveAtEntryIn(cfg, storageManager, c, k)
+//@ macro storeOnlyShrinks() = forallI(s, forallS(k, (stHas[s][k] ==> old(stHas[s][k])) && (memHas[s][k] ==> old(memHas[s][k])))) && forallI(x, ssHas[x] ==> old(ssHas[x]))
+//@ macro storeKeptExcept(c, tok) = forallI(s, forallS(k, k != tok ==> (stHas[s][k] <==> old(stHas[s][k])) && (memHas[s][k] <==> old(memHas[s][k])))) && forallI(x, x != c ==> ssHas[x] == old(ssHas[x]) && ssKey[x] == old(ssKey[x]))
+//@ macro managersKept() = cfg.Session == nil ==> storageManager.storage == old(storageManager.storage) && storageManager.memory == old(storageManager.memory)
+
+//@ func getRawFromStorage
+//@   modifies stHas, memHas, ssHas, heap
+//@   ensures found-only-live: result != nil ==> tokLive(c, token)
+//@   ensures lookup-adds-nothing: storeOnlyShrinks()
+//@   ensures managers-kept: managersKept()
+
+//@ func createOrExtendTokenInStorage
+//@   modifies stHas, stVal, memHas, ssHas, ssKey, heap
+//@   atcall (*sessionManager).setRaw: token-with-idle-timeout: key == token && exp == cfg.IdleTimeout
+//@   atcall (*storageManager).setRaw: token-with-idle-timeout: key == token && exp == cfg.IdleTimeout
+//@   ensures never-removes: tokLiveAtEntry(c, token) ==> tokLive(c, token)
+//@   ensures other-tokens-kept: storeKeptExcept(c, token)
+//@   ensures managers-kept: managersKept()
+//@   ensures live-afterwards-storage: cfg.Session == nil ==> tokLive(c, token)
+// FAILS (genuine, session back end only): sessionManager.setRaw returns silently / only logs when the session cannot be loaded or saved.
+//@   ensures live-afterwards: tokLive(c, token)
+
+//@ func deleteTokenFromStorage
+//@   modifies stHas, memHas, ssHas, heap
+//@   atcall (*storageManager).delRaw: the-token: key == token
+//@   ensures delete-adds-nothing: storeOnlyShrinks()
+//@   ensures other-tokens-kept: storeKeptExcept(c, token)
+//@   ensures managers-kept: managersKept()
+//@   ensures dead-afterwards-storage: cfg.Session == nil ==> !tokLive(c, token)
+// FAILS (genuine, session back end only): sessionManager.delRaw returns silently / only logs when the session cannot be loaded or saved.
+//@   ensures dead-afterwards: !tokLive(c, token)
+
+// ---------------------------------------------------------------------------------------------
+// The middleware handler
+// ---------------------------------------------------------------------------------------------
+// Configured callbacks. exTok/exOK: what the extractor returned in this activation; ehCalls: number of
+// error-handler calls. The error handler may do anything to the response, but it does not run the
+// protected handler (nextCalls is not in its frame) and it does not touch the token store.
+//@ ghost exTok string
+//@ ghost exOK bool
+//@ ghost ehCalls int
+//@ func Config.Next assumed pure
+//@ func Config.Extractor assumed
+//@   modifies exTok, exOK
+//@   ensures exTok == result0 && exOK == (result1 == nil)
+//@ func Config.KeyGenerator assumed pure
+//@   ensures result != ""
+//@ func Config.ErrorHandler assumed
+//@   modifies ehCalls, heap
+//@   ensures ehCalls == old(ehCalls) + 1
+// isFromCookie uses reflection (outside the engine's subset): nothing is assumed about its result.
+//@ func isFromCookie assumed pure
+
+//@ macro bypassed() = called(Config.Next) && last(Config.Next)
+//@ macro unsafeMethod(c) = reqMethod(c, epoch) != "GET" && reqMethod(c, epoch) != "HEAD" && reqMethod(c, epoch) != "OPTIONS" && reqMethod(c, epoch) != "TRACE"
+//@ macro originAbsent(c) = originLc(c) == "" || originLc(c) == "null"
+//@ macro originAllowed(c) = !originAbsent(c) && urlOK(originLc(c)) && (sameOrigin(c, originLc(c)) || trustedExact(trustedOrigins, originLc(c)) || trustedWild(trustedSubOrigins, originLc(c)))
+//@ macro refererAllowed(c) = refererLc(c) != "" && urlOK(refererLc(c)) && (sameOrigin(c, refererLc(c)) || trustedExact(trustedOrigins, refOrigin(refererLc(c))) || trustedWild(trustedSubOrigins, refOrigin(refererLc(c))))
+//@ macro cookieTok(c) = reqCookie(c, old(cfg.CookieName), epoch)
+
+//@ func New$1
+//@   requires fresh-activation: nextCalls == 0 && ehCalls == 0
+//@   requires sentinel-errors: sentinelErrors() && ErrRefererNotFound != nil && ErrRefererInvalid != nil && ErrRefererNoMatch != nil
+//@   requires trusted-are-origins: trustedWf(trustedOrigins)
+// -- unsafe methods: what must hold whenever the protected handler is reached
+//@   atcall @fiber.Ctx.Next: unsafe-origin-same-or-trusted: !bypassed() && unsafeMethod(c) ==> originAllowed(c) || (originAbsent(c) && (reqScheme(c, epoch) != "https" || refererAllowed(c)))
+//@   atcall @fiber.Ctx.Next: unsafe-token-extracted: !bypassed() && unsafeMethod(c) ==> called(Config.Extractor) && exOK && exTok != ""
+//@   atcall @fiber.Ctx.Next: unsafe-token-matches-cookie: !bypassed() && unsafeMethod(c) ==> (called(isFromCookie) && last(isFromCookie)) || exTok == cookieTok(c)
+//@   atcall @fiber.Ctx.Next: unsafe-token-was-live: !bypassed() && unsafeMethod(c) ==> called(getRawFromStorage) && last(getRawFromStorage) != nil && tokLiveAtEntry(c, exTok)
+// -- what is looked up, consumed and issued
+//@   atcall getRawFromStorage: looks-up-presented-token: token == ite(unsafeMethod(c), exTok, cookieTok(c)) && token != ""
+//@   atcall deleteTokenFromStorage: consumes-presented-token: unsafeMethod(c) && old(cfg.SingleUseToken) && token == exTok
+//@   atcall createOrExtendTokenInStorage: single-use-token-consumed: unsafeMethod(c) && old(cfg.SingleUseToken) ==> !tokLive(c, exTok) && called(Config.KeyGenerator) && token == last(Config.KeyGenerator)
+//@   atcall createOrExtendTokenInStorage: stores-only-issued-tokens: (called(Config.KeyGenerator) && token == last(Config.KeyGenerator)) || tokLiveAtEntry(c, token)
+//@   atcall createOrExtendTokenInStorage: live-presented-token-is-kept: !(unsafeMethod(c) && old(cfg.SingleUseToken)) && called(getRawFromStorage) && last(getRawFromStorage) != nil ==> token == ite(unsafeMethod(c), exTok, cookieTok(c))
+// -- every request that passes leaves a valid token cookie
+//@   atcall @fiber.Ctx.Next: cookie-carries-live-token: !bypassed() ==> rcSet[old(cfg.CookieName)] && rcVal[old(cfg.CookieName)] != "" && tokLive(c, rcVal[old(cfg.CookieName)])
+// -- outcomes
+//@   ensures safe-methods-always-pass: !bypassed() && !unsafeMethod(c) ==> nextCalls == 1 && ehCalls == 0
+//@   ensures next-or-error-handler-once: !bypassed() ==> nextCalls + ehCalls == 1
+//@   ensures bypass-untouched: bypassed() ==> nextCalls == 1 && ehCalls == 0
+//@   ensures dead-token-expires-cookie: !bypassed() && called(getRawFromStorage) && last(getRawFromStorage) == nil && unsafeMethod(c) ==> nextCalls == 0 && rcSet[old(cfg.CookieName)] && rcVal[old(cfg.CookieName)] == ""
+
+// DeleteToken (logout): the token of the CSRF cookie is dead afterwards and the cookie is cleared.
+//@ func (*Handler).DeleteToken
+//@   requires fresh-activation: ehCalls == 0
+//@   atcall deleteTokenFromStorage: deletes-cookie-token: token == reqCookie(c, old(handler.config.CookieName), epoch) && token != ""
+//@   ensures cookie-token-dead: reqCookie(c, old(handler.config.CookieName), epoch) != "" ==> result == nil && ehCalls == 0 &&
+//@ ..   !liveIn(handler.config, old(handler.storageManager), c, reqCookie(c, old(handler.config.CookieName), epoch))
+//@   ensures cookie-cleared: reqCookie(c, old(handler.config.CookieName), epoch) != "" ==> rcSet[handler.config.CookieName] && rcVal[handler.config.CookieName] == ""
+//@   ensures no-cookie-is-an-error: reqCookie(c, old(handler.config.CookieName), epoch) == "" ==> ehCalls == 1
+//@   ensures adds-no-token: storeOnlyShrinks()
+
+// ---------------------------------------------------------------------------------------------
+// Extractors: a token is returned without error only if it is the non-empty value of the named source.
+// ---------------------------------------------------------------------------------------------
+//@ func FromHeader$1
+//@   pure
+//@   requires sentinel-error: ErrMissingHeader != nil
+//@   ensures token-or-error: (result1 == nil ==> result0 != "" && result0 == reqHeader(c, param, epoch)) && (result1 != nil ==> result0 == "")
+//@ func FromCookie$1
+//@   pure
+//@   requires sentinel-error: ErrMissingCookie != nil
+//@   ensures token-or-error: (result1 == nil ==> result0 != "" && result0 == reqCookie(c, param, epoch)) && (result1 != nil ==> result0 == "")
+//@ func FromParam$1
+//@   pure
+//@   requires sentinel-error: ErrMissingParam != nil
+//@   ensures token-or-error: (result1 == nil ==> result0 != "" && result0 == reqParam(c, param, epoch)) && (result1 != nil ==> result0 == "")
+//@ func FromForm$1
+//@   pure
+//@   requires sentinel-error: ErrMissingForm != nil
+//@   ensures token-or-error: (result1 == nil ==> result0 != "" && result0 == reqForm(c, param, epoch)) && (result1 != nil ==> result0 == "")
+//@ func FromQuery$1
+//@   pure
+//@   requires sentinel-error: ErrMissingQuery != nil
+//@   ensures token-or-error: (result1 == nil ==> result0 != "" && result0 == reqQuery(c, param, epoch)) && (result1 != nil ==> result0 == "")
+
+// ---------------------------------------------------------------------------------------------
+// Configuration
+// ---------------------------------------------------------------------------------------------
+// normalizeOrigin accepts only http(s) URLs with a host and nothing else, and returns scheme://host.
+//@ func normalizeOrigin
+//@   pure
+//@   ensures valid-only-plain-http-origin: result0 ==> urlOK(origin) && (urlScheme(origin) == "http" || urlScheme(origin) == "https") && urlHost(origin) != "" && !strContains(urlHost(origin), "*")
+//@   ensures normalised-is-scheme-host: result0 ==> result1 == lower(urlScheme(origin)) + "://" + lower(urlHost(origin)) && originForm(result1)
+//@   ensures invalid-is-empty: !result0 ==> result1 == ""
+
+//@ func configDefault panics
+//@   requires package-default-intact: allocated(ConfigDefault) && ConfigDefault.IdleTimeout > 0 && ConfigDefault.CookieName != "" && ConfigDefault.KeyGenerator != nil && ConfigDefault.ErrorHandler != nil && ConfigDefault.Extractor != nil && ConfigDefault.KeyLookup != ""
+//@   ensures idle-timeout-positive: result.IdleTimeout > 0
+//@   ensures callbacks-set: result.KeyGenerator != nil && result.ErrorHandler != nil && result.Extractor != nil
+//@   ensures user-choices-kept: len(config) > 0 ==> result.Storage == config[0].Storage && result.Session == config[0].Session && result.SingleUseToken == config[0].SingleUseToken && result.TrustedOrigins == config[0].TrustedOrigins &&
+//@ ..   (config[0].IdleTimeout > 0 ==> result.IdleTimeout == config[0].IdleTimeout) && (config[0].Extractor != nil ==> result.Extractor == config[0].Extractor && (config[0].CookieName != "" ==> result.CookieName == config[0].CookieName))
+
+// The extractor constructors only allocate the closure.
+//@ func FromHeader pure
+//@   ensures result != nil
+//@ func FromCookie pure
+//@   ensures result != nil
+//@ func FromParam pure
+//@   ensures result != nil
+//@ func FromForm pure
+//@   ensures result != nil
+//@ func FromQuery pure
+//@   ensures result != nil
+
+//@ func newStorageManager
+//@   ensures configured-store-or-memory: result != nil && result.storage == storage && (storage == nil ==> result.memory != nil)
+
+// New: the lists captured by the handler. Exact entries are normalised origins (this is what the handler's
+// `requires trusted-are-origins` stands for; the link between the two is by name, the engine does not check
+// a closure's precondition where the closure is made).
+// safety:bounds:strslice#3 (normalizedOrigin[:i+3]) FAILS (genuine): i is the index of "://*." in the untrimmed entry.
+//@ func New panics
+//@   requires package-default-intact: allocated(ConfigDefault) && ConfigDefault.IdleTimeout > 0 && ConfigDefault.CookieName != "" && ConfigDefault.KeyGenerator != nil && ConfigDefault.ErrorHandler != nil && ConfigDefault.Extractor != nil && ConfigDefault.KeyLookup != ""
+//@   loop 1
+//@     invariant trusted-are-origins: trustedWf(trustedOrigins)
+//@   ensures trusted-are-origins: trustedWf(trustedOrigins)
